@@ -4,8 +4,9 @@
    All theorems: for EVERY lexer description accepted by the boolean wf_lexer_tables — evaluated on the real tables of
    every generated lexer and (structural part) every shipped lexer on each run — every valid start condition and
    EVERY byte string (bytes_ok: values 0..255, invalid UTF-8 included). *)
-From Coq Require Import List ZArith Bool.
+From Coq Require Import List ZArith Bool Lia.
 From TM Require Import Lex.Tables Lex.Scan Lex.LexerRT Lex.LexerRT_proofs Lex.LexerWf Lex.LexerWf_proofs.
+From TM Require Import Lex.Deriv Lex.DerivSem Lex.Bisim Lex.LexerSpec Lex.LexerSpec_proofs.
 Import ListNotations.
 Local Open Scope Z_scope.
 
@@ -70,9 +71,46 @@ Proof. exact read_char_progress. Qed.
 Theorem C12_newline_count_additive : forall a b, count_nl (a ++ b) = count_nl a + count_nl b.
 Proof. exact count_nl_app. Qed.
 
-(* NOT proved (partial): gaps_are_space_matches at the rule level (the text between tokens is matched by space rules:
-   needs the regex-level specification, monitored per run by C12/C11), "end-of-input is returned only at the end"
-   (a rule may map to token 0), and the action contract for hand-written actions of the tm/js/test lexers (their
+(* gaps_are_space_matches.  space_gap a b (Lex/LexerSpec.v): [a, b) is cut into pieces; each piece is the first i
+   symbols of the rest of the source at its start (decoded in context, as the lexer reads them; at the end of the source
+   followed by k <= 4 end markers) and is MATCHED (DerivSem.matches, the declarative semantics of C09) by an active rule
+   whose action — specialised by the keyword switch when it is a class action — is a space action.
+   For EVERY lexer in rule-token mode accepted by wf_lexer_tables, check_tables and kw_targets_ok whose tables are
+   certified against the rules of the start condition (C09: check_bisim = 0, see C11_check_bisim_certifies), and EVERY
+   consistent state: the bytes between the offset before a call of Next (= the end of the previous token) and the start
+   of the returned token are such a gap; and so is every gap of the whole stream from Init. *)
+Theorem C12_gap_before_token_is_space_matches : forall lx sc rules l,
+  wf_lexer_tables lx = true -> check_tables (lx_tables lx) = true -> kw_targets_ok lx = true -> lx_rule_token lx <> [] ->
+  In (nthZ (state_map (lx_tables lx)) sc) (state_map (lx_tables lx)) ->
+  certified (lx_tables lx) sc rules -> linv lx l ->
+  exists tok l', next_tok (next_fuel l) lx sc l = Some (tok, l') /\
+    space_gap lx (kwf_switch lx) (fun a => a) rules (l_src l) (l_off l) (l_tokoff l').
+Proof. exact gap_before_token. Qed.
+
+Theorem C12_gaps_are_space_matches : forall lx sc rules src,
+  wf_lexer_tables lx = true -> check_tables (lx_tables lx) = true -> kw_targets_ok lx = true -> lx_rule_token lx <> [] ->
+  In (nthZ (state_map (lx_tables lx)) sc) (state_map (lx_tables lx)) -> certified (lx_tables lx) sc rules -> bytes_ok src ->
+  exists toks, lex_all (S (length src)) lx sc (LexerRT.init lx src) = Some toks /\
+    stream_gaps lx (kwf_switch lx) (fun a => a) rules src 0 toks.
+Proof. exact gaps_are_space_matches. Qed.
+
+(* a gap is inhabited: " " before "a" in the example lexer of C11 (rule 2 = / +/ is space) *)
+Example C12_gap_example :
+  let t := mkTables false [(0, 1); (32, 2); (33, 1); (97, 3); (98, 1)] 4 [0] [-1; -1; 1; 2; -3; -3; 1; -3; -4; -4; -4; -4] [] in
+  let lx := mkLexer t [1; 0; 2; 3] [2] 1 [] [] true true in
+  let rules := [(Rep 1 (-1) (Sym [(32, 32)]), 2, 0); (Sym [(97, 97)], 3, 0)] in
+  space_gap lx (kwf_switch lx) (fun a => a) rules [32; 97] 0 1.
+Proof.
+  cbv zeta. eapply (SG_cons _ _ _ _ _ 0 1 _ 2 0 1%nat 0%nat).
+  - left. reflexivity.
+  - vm_compute. repeat split; try lia.
+  - apply Deriv_proofs.derivs_nullable. reflexivity.
+  - reflexivity.
+  - apply SG_nil.
+Qed.
+
+(* NOT proved (partial): the same for lexers with inlined rule actions (see C11), "end-of-input is returned only at the
+   end" (a rule may map to token 0), and the action contract for hand-written actions of the tm/js/test lexers (their
    streams are monitored; test.tm's inMultiLine condition relies on its action to leave the state at end-of-input,
    so only the structural part wf_tables is demanded from lexers with actions). *)
 
@@ -100,3 +138,5 @@ Print Assumptions C12_tokens_finite_and_end_in_eoi.
 Print Assumptions C12_model_never_out_of_fuel.
 Print Assumptions C12_forced_step_progress.
 Print Assumptions C12_newline_count_additive.
+Print Assumptions C12_gap_before_token_is_space_matches.
+Print Assumptions C12_gaps_are_space_matches.
